@@ -70,7 +70,7 @@ def step (s : S) (line : String) : S × String :=
   | "rf" :: _ =>
     match argHex? ws "h" with
     | some b =>
-      if s.rows.size == 0 || b.length != s.alen || b.any (fun c => c == 0 || c ≥ 128) then (s, "bad-op")
+      if s.rows.size == 0 || b.length != s.alen || b.any (fun c => c == 0) then (s, "bad-op")
       else ({ s with rf := some b }, "ok")
     | none => (s, "bad-op")
   | "pairid" :: _ =>
